@@ -4,6 +4,7 @@ CONSTANTS OFFBYONE = FALSE
   NULLZERO = FALSE
   KEYGEN0 = TRUE
   DECRYPTMEMBERS = FALSE
+  TRAILERMERGE = FALSE
   Objs = {1, 2}
   MaxRevs = 3
   Styles = {"one", "each", "runs"}
